@@ -121,7 +121,65 @@ func c08RunApplicable(c *mon.Ctx, kind int, pos model.Position) {
 
 // c08RunOrRuleSets: paired bounds inside the rule-sets of an or rule must be ordered too,
 // whatever the kind of the annotated example (the rule-set describes an alternative of its own).
+// c08RunOrBans: what may not stand next to a format type / type any / enum stays forbidden inside
+// an or rule-set; the same rule-set without the banned rule is the control.
+func c08RunOrBans(c *mon.Ctx) {
+	formats := []struct{ typ, ex string }{
+		{"email", "a@b.cc"}, {"uri", "http://a.b/c"}, {"uuid", "550e8400-e29b-41d4-a716-446655440000"}, {"date", "2021-01-02"}, {"datetime", "2021-01-02T03:04:05Z"},
+	}
+	type cs struct {
+		ex   *model.Node
+		set  []*model.Rule
+		want string
+		why  string
+	}
+	var cases []cs
+	for _, f := range formats {
+		for _, banned := range []*model.Rule{model.RInt("minLength", 3), model.RInt("maxLength", 60), model.RStr("regex", ".")} {
+			cases = append(cases,
+				cs{model.Str(f.ex), []*model.Rule{model.RStr("type", f.typ), banned}, "reject", "format type with " + banned.Name + " inside an or rule-set"},
+				cs{model.Str(f.ex), []*model.Rule{banned, model.RStr("type", f.typ)}, "reject", "format type with " + banned.Name + " inside an or rule-set (other order)"})
+		}
+		cases = append(cases, cs{model.Str(f.ex), []*model.Rule{model.RStr("type", f.typ)}, "accept", "format type alone inside an or rule-set"})
+	}
+	cases = append(cases,
+		cs{model.Int("5"), []*model.Rule{model.RStr("type", "any"), model.RBool("const", true)}, "reject", "const next to any inside an or rule-set"},
+		cs{model.Int("5"), []*model.Rule{model.RStr("type", "any"), model.RNum("min", "1")}, "reject", "min next to any inside an or rule-set"},
+		cs{model.Int("5"), []*model.Rule{model.RStr("type", "any")}, "accept", "any alone inside an or rule-set"},
+		cs{model.Flt("1.5"), []*model.Rule{model.RStr("type", "decimal")}, "reject", "decimal without precision inside an or rule-set"},
+		cs{model.Flt("1.5"), []*model.Rule{model.RStr("type", "decimal"), model.RInt("precision", 2)}, "accept", "decimal with precision inside an or rule-set"},
+		cs{model.Int("5"), []*model.Rule{model.RNum("min", "1"), model.RBool("exclusiveMaximum", true)}, "reject", "exclusiveMaximum without max inside an or rule-set"},
+		cs{model.Str("abc"), []*model.Rule{model.RStr("type", "string"), model.RNum("min", "1")}, "reject", "min on a string inside an or rule-set"},
+	)
+	for _, k := range cases {
+		for _, pos := range []model.Position{model.PosRoot, model.PosProperty, model.PosItem} {
+			for order := 0; order < 2; order++ {
+				n := k.ex.Clone()
+				items := []model.OrItem{model.OrSet(k.set...), model.OrSet(model.RStr("type", "null"))}
+				if order == 1 {
+					items[0], items[1] = items[1], items[0]
+				}
+				n.Rules = []*model.Rule{model.ROr(items...)}
+				sp := c08Spec(n, pos)
+				obs := c08Check(sp)
+				c.Eval(1)
+				c.DistinctByConstruction(1)
+				c.Count("or rule-set ban cases", 1)
+				if obs.Panic != "" {
+					c.Violate("check", c08Case{sp}, "no panic", obs.String(), "Check panicked")
+					continue
+				}
+				c.Count(fmt.Sprintf("verdict expected=%s observed=%s", k.want, obs.Verdict()), 1)
+				if obs.Verdict() != k.want {
+					c.Violate("matrix", c08Case{sp}, k.want, obs.String(), "Check verdict differs for a rule-set of an or rule: "+k.why)
+				}
+			}
+		}
+	}
+}
+
 func c08RunOrRuleSets(c *mon.Ctx) {
+	c08RunOrBans(c)
 	type pair struct {
 		lo, hi, typ string
 	}
